@@ -458,3 +458,285 @@ pub fn cmd_replay(file: &str, prop: &str, out: &str) {
     rep.extra.insert("edges".into(), json!(n));
     rep.write(out, profile_name());
 }
+
+// ---------------------------------------------------------------------------------------------
+// Long walks (impl -> spec): `ic-walk --seed N --runs K --len L --out trace.ndjson`, validated by
+// spec/TraceIC.tla.  One run = one container of one kind taken through phases of thousands of pushes.
+
+impl Subj {
+    /// up to `k` items of the iterator from position `from`, reached by nth() or by repeated next(), or on
+    /// a clone taken half-way; the flag tells whether the iterator ended
+    pub fn iter_window(&self, from: usize, k: usize, how: usize) -> (Vec<usize>, bool) {
+        fn go<I: Iterator<Item = usize> + Clone>(mut it: I, from: usize, k: usize, how: usize) -> (Vec<usize>, bool) {
+            match how {
+                0 => {
+                    if from > 0 {
+                        it.nth(from - 1);
+                    }
+                }
+                1 => {
+                    for _ in 0..from {
+                        it.next();
+                    }
+                }
+                _ => {
+                    for _ in 0..from / 2 {
+                        it.next();
+                    }
+                    let mut c = it.clone();
+                    for _ in from / 2..from {
+                        c.next();
+                    }
+                    it = c;
+                }
+            }
+            let mut out = vec![];
+            for _ in 0..k {
+                match it.next() {
+                    Some(x) => out.push(x),
+                    None => return (out, true),
+                }
+            }
+            (out, false)
+        }
+        match self {
+            Subj::Vec(v) => go(IndexContainer::iter(v), from, k, how),
+            Subj::List(v) => go(IndexContainer::iter(v), from, k, how),
+            Subj::Opt(v) => go(IndexContainer::iter(v), from, k, how),
+            Subj::Stride(s) => go(s.iter(), from, k, how),
+        }
+    }
+    fn used(&self) -> usize {
+        self.heap().iter().map(|p| p.0).sum()
+    }
+}
+
+pub fn cmd_walk(seed: u64, runs: usize, maxlen: usize, out: &str) {
+    use rand::rngs::StdRng;
+    use rand::{Rng, SeedableRng};
+    use std::io::Write;
+    quiet_panics();
+    let f = std::fs::File::create(out).expect("create trace");
+    let mut w = std::io::BufWriter::new(f);
+    let mut rng = StdRng::seed_from_u64(seed);
+    const STRIDES: [u64; 16] =
+        [0, 1, 2, 3, 7, 1 << 16, (1 << 31) - 1, 1 << 31, u32::MAX as u64, 1 << 32, (1 << 32) + 1, 1 << 48, 1 << 52, 1 << 56, 1 << 60, 1 << 63];
+    let mut events = 0u64;
+    for run in 1..=runs as u64 {
+        let kind = ["opt", "list", "opt", "stride", "opt", "vec"][(run as usize - 1) % 6];
+        let mut s = Subj::new(kind);
+        let mut ev = |v: Value| {
+            let mut v = v;
+            v["run"] = json!(run);
+            writeln!(w, "{}", v).unwrap();
+            events += 1;
+        };
+        ev(json!({"ev": "reset", "kind": kind}));
+        let target = if run % 3 == 0 { maxlen } else { rng.gen_range(20..maxlen.max(21)) };
+        let mut total = 0usize;
+        let mut alive = true;
+        let mut last: usize = 0;
+        let mut first_phase = true;
+        // one push with its observation; false when the run is over (panic)
+        // in batch mode (never for Stride) the values of a phase travel through `extend` in batches that end at
+        // the next observation; the trace lists them as individual pushes, observed after the batch
+        let mut buf: Vec<usize> = vec![];
+        let batch_mode = std::cell::Cell::new(false);
+        let mut push = |s: &mut Subj, x: usize, obs: bool, rng: &mut StdRng, ev: &mut dyn FnMut(Value)| -> bool {
+            let mut x = x;
+            if batch_mode.get() {
+                buf.push(x);
+                if !(obs || buf.len() >= 48) {
+                    return true;
+                }
+                let mut xs = std::mem::take(&mut buf);
+                x = xs.pop().unwrap();
+                let head = xs.clone();
+                if let Err(m) = guarded(|| s.extend(xs)) {
+                    ev(json!({"ev": "push", "x": unword(x), "panic": true, "msg": m, "ok": false, "untouched": true, "obs": false, "via": "extend"}));
+                    return false;
+                }
+                for h in head {
+                    ev(json!({"ev": "push", "x": unword(h), "panic": false, "ok": true, "untouched": true, "obs": false, "via": "extend",
+                              "len": 0, "empty": false, "used": 0, "last": unword(0)}));
+                }
+            }
+            let obs = obs || batch_mode.get();
+            let r = if batch_mode.get() { guarded(|| { s.extend(vec![x]); (true, true) }) } else { guarded(|| s.push(x)) };
+            match r {
+                Err(m) => {
+                    ev(json!({"ev": "push", "x": unword(x), "panic": true, "msg": m, "ok": false, "untouched": true, "obs": false}));
+                    false
+                }
+                Ok((ok, untouched)) => {
+                    let o = if obs { guarded(|| (s.len(), s.is_empty(), s.used(), if s.len() > 0 { s.index(s.len() - 1) } else { 0 })) } else { Ok((0, true, 0, 0)) };
+                    match o {
+                        Err(m) => {
+                            ev(json!({"ev": "push", "x": unword(x), "panic": true, "msg": m, "ok": ok, "untouched": untouched, "obs": false}));
+                            false
+                        }
+                        Ok((len, empty, used, lastv)) => {
+                            ev(json!({"ev": "push", "x": unword(x), "panic": false, "ok": ok, "untouched": untouched, "obs": obs,
+                                      "len": len, "empty": empty, "used": used, "last": unword(lastv)}));
+                            if obs && len > 0 {
+                                for _ in 0..2 {
+                                    let i = rng.gen_range(0..len);
+                                    match guarded(|| s.index(i)) {
+                                        Ok(v) => ev(json!({"ev": "probe", "i": i, "v": unword(v), "panic": false})),
+                                        Err(m) => {
+                                            ev(json!({"ev": "probe", "i": i, "v": unword(0), "panic": true, "msg": m}));
+                                            return false;
+                                        }
+                                    }
+                                }
+                            }
+                            true
+                        }
+                    }
+                }
+            }
+        };
+        while alive && total < target {
+            let phase = if first_phase && rng.gen_bool(0.75) { 0 } else { rng.gen_range(0..10) };
+            first_phase = false;
+            let budget = target - total;
+            batch_mode.set(kind != "stride" && rng.gen_bool(0.3));
+            match phase {
+                0 | 1 => {
+                    // 0, s, 2s, ... (when the container is empty this is the compressible shape); when the product
+                    // leaves usize the wrapped value is pushed once - a non-continuation
+                    let st = STRIDES[rng.gen_range(0..STRIDES.len())] as usize;
+                    let k = rng.gen_range(2..=budget.clamp(2, 6000));
+                    for c in 0..k {
+                        let (x, over) = match st.checked_mul(c) {
+                            Some(x) => (x, false),
+                            None => (st.wrapping_mul(c), true),
+                        };
+                        let obs = total < 40 || over || c + 1 == k || rng.gen_bool(0.1);
+                        alive = push(&mut s, x, obs, &mut rng, &mut ev);
+                        total += 1;
+                        last = x;
+                        if !alive || over {
+                            break;
+                        }
+                    }
+                }
+                2 => {
+                    let r = rng.gen_range(1..=budget.clamp(1, 400));
+                    for c in 0..r {
+                        alive = push(&mut s, last, c + 1 == r || rng.gen_bool(0.1), &mut rng, &mut ev);
+                        total += 1;
+                        if !alive {
+                            break;
+                        }
+                    }
+                }
+                3 | 4 => {
+                    let m = rng.gen_range(1..=budget.clamp(1, 1500));
+                    for c in 0..m {
+                        let x = match rng.gen_range(0..4) {
+                            0 => rng.gen_range(0..100usize),
+                            1 => u32::MAX as usize - rng.gen_range(0..3usize),
+                            _ => rng.gen::<u32>() as usize,
+                        };
+                        alive = push(&mut s, x, c + 1 == m || rng.gen_bool(0.1), &mut rng, &mut ev);
+                        total += 1;
+                        last = x;
+                        if !alive {
+                            break;
+                        }
+                    }
+                }
+                5 => {
+                    let m = rng.gen_range(1..=budget.clamp(1, 300));
+                    for c in 0..m {
+                        let x = match rng.gen_range(0..4) {
+                            0 => u32::MAX as usize + 1 + rng.gen_range(0..3usize),
+                            1 => usize::MAX - rng.gen_range(0..3usize),
+                            _ => (rng.gen::<u64>() | (1 << 32)) as usize,
+                        };
+                        alive = push(&mut s, x, c + 1 == m || rng.gen_bool(0.1), &mut rng, &mut ev);
+                        total += 1;
+                        last = x;
+                        if !alive {
+                            break;
+                        }
+                    }
+                }
+                6 => {
+                    // a window of the iterator
+                    let len = s.len();
+                    let from = if len == 0 { 0 } else { rng.gen_range(0..=len) };
+                    let how = rng.gen_range(0..3);
+                    match guarded(|| s.iter_window(from, 8, how)) {
+                        Ok((vs, complete)) => ev(json!({"ev": "iter", "from": from, "how": how, "vs": vs.into_iter().map(unword).collect::<Vec<_>>(), "complete": complete, "panic": false})),
+                        Err(m) => {
+                            ev(json!({"ev": "iter", "from": from, "how": how, "vs": [], "complete": false, "panic": true, "msg": m}));
+                            alive = false;
+                        }
+                    }
+                }
+                7 => {
+                    if rng.gen_bool(0.4) {
+                        match guarded(|| {
+                            s.clear();
+                            (s.len(), s.is_empty(), s.used())
+                        }) {
+                            Ok((len, empty, used)) => {
+                                ev(json!({"ev": "clear", "len": len, "empty": empty, "used": used, "panic": false}));
+                                first_phase = true;
+                            }
+                            Err(m) => {
+                                ev(json!({"ev": "clear", "len": 0, "empty": true, "used": 0, "panic": true, "msg": m}));
+                                alive = false;
+                            }
+                        }
+                    }
+                }
+                8 => {
+                    let how = ["clone", "clone_from", "serde"][rng.gen_range(0..3)];
+                    let r = guarded(|| -> Result<Subj, String> {
+                        Ok(match how {
+                            "clone" => s.clone(),
+                            "clone_from" => s.clone_from_dirty(),
+                            _ => s.serde_roundtrip()?,
+                        })
+                    });
+                    match r {
+                        Ok(Ok(c)) => {
+                            s = c;
+                            ev(json!({"ev": "copy", "how": how, "len": s.len(), "empty": s.is_empty(), "used": s.used(), "panic": false}));
+                        }
+                        Ok(Err(m)) | Err(m) => {
+                            ev(json!({"ev": "copy", "how": how, "len": 0, "empty": true, "used": 0, "panic": true, "msg": m}));
+                            alive = false;
+                        }
+                    }
+                }
+                _ => {
+                    let nres = rng.gen_range(0..200usize);
+                    match guarded(|| {
+                        s.reserve(nres);
+                        (s.len(), s.is_empty(), s.used())
+                    }) {
+                        Ok((len, empty, used)) => ev(json!({"ev": "reserve", "n": nres, "len": len, "empty": empty, "used": used, "panic": false})),
+                        Err(m) => {
+                            ev(json!({"ev": "reserve", "n": nres, "len": 0, "empty": true, "used": 0, "panic": true, "msg": m}));
+                            alive = false;
+                        }
+                    }
+                }
+            }
+        }
+        if alive {
+            // a final window over the tail: the iterator must end exactly at len
+            let len = s.len();
+            let from = len.saturating_sub(5);
+            if let Ok((vs, complete)) = guarded(|| s.iter_window(from, 8, 1)) {
+                ev(json!({"ev": "iter", "from": from, "how": 1, "vs": vs.into_iter().map(unword).collect::<Vec<_>>(), "complete": complete, "panic": false}));
+            }
+        }
+    }
+    w.flush().unwrap();
+    eprintln!("ic-walk: {runs} runs, {events} events");
+}
